@@ -973,12 +973,17 @@ type faultWC struct {
 	permanent bool // every call from failAt on fails
 	hit       bool
 	closeErr  bool
+	partial   bool // a failing call accepts the first half of the bytes: returns (n > 0, err)
 }
 
 func (s *faultWC) Write(b []byte) (int, error) {
 	s.calls++
 	if s.failAt > 0 && (s.calls == s.failAt || (s.permanent && s.calls > s.failAt)) {
 		s.hit = true
+		if s.partial && len(b) > 1 {
+			s.data = append(s.data, b[:len(b)/2]...)
+			return len(b) / 2, fmt.Errorf("sink failure after a partial write (injected at call %d)", s.calls)
+		}
 		return 0, fmt.Errorf("sink failure (injected at call %d)", s.calls)
 	}
 	s.data = append(s.data, b...)
@@ -1041,8 +1046,10 @@ func runC08(c *Ctx, _ []string) {
 		}
 		// ---- sink faults: every call index, transient and permanent, plus a failing Close of the sink
 		for k := 1; k <= K+1; k++ {
-			for _, perm := range []bool{false, true} {
-				sink := &faultWC{failAt: k, permanent: perm}
+			for mode := 0; mode < 3; mode++ {
+				perm := mode >= 1
+				// mode 2: from call k on the sink accepts half of each write and reports an error (io.Writer allows n > 0 with err != nil)
+				sink := &faultWC{failAt: k, permanent: perm, partial: mode == 2}
 				if k == K+1 {
 					if perm {
 						continue
